@@ -705,17 +705,32 @@ class Task:
 
         self.min_start = min_start
 
-        if parent is not None:
-            self.parent = parent
-        if children is not None:
-            self.children = children
-        if successors:
-            self.successors = successors
-        if predecessors:
-            self.predecessors = predecessors
-
         for k, v in kwargs.items():
             self.__setattr__(k, v)
+
+        self.__link(parent, children, predecessors, successors)
+
+    def __link(self, parent, children, predecessors, successors):
+        """
+        Connects a task nobody else holds yet (constructor, clone). A refused call leaves no half-built task
+        in the graph: the children come last (that assignment is all-or-nothing), whatever was applied before
+        a refusal is taken back.
+        """
+        try:
+            if successors:
+                self.successors = successors
+            if predecessors:
+                self.predecessors = predecessors
+            if parent is not None:
+                self.parent = parent
+            if children is not None:
+                self.children = children
+        except Exception:
+            self.successors = []
+            self.predecessors = []
+            if self.__parent is not None:
+                self.__parent.children.remove(self)
+            raise
 
     def _is_hidden_root(self) -> bool:
         return self.__hidden_root
@@ -1014,8 +1029,10 @@ class Task:
             if not k.startswith('_'):
                 cloned.__setattr__(k, self.__getattribute__(k))
 
+        relations = [kwargs.pop(k, None) for k in ('parent', 'children', 'predecessors', 'successors')]
         for k, v in kwargs.items():
             cloned.__setattr__(k, v)
+        cloned.__link(*relations)
 
         return cloned
 
